@@ -41,6 +41,15 @@ Proof. decide equality. Defined.
 Definition eqb_of {A} (dec : forall a b : A, {a = b} + {a <> b}) (a b : A) : bool :=
   if dec a b then true else false.
 
+(** Which legitimate error an operation REFUSES with (the order of its guards)
+    is not part of the property and no theorem of Properties/C03.v depends on
+    it: any error answers any error.  A crash is not a refusal: [EPanic] only
+    matches [EPanic].  (The classes of PrivKey() and Script() - ErrLocked,
+    ErrWatchingOnly - are compared exactly below: the theorems about the
+    availability of private keys speak about them.) *)
+Definition is_panic (e : errc) : bool := match e with EPanic => true | _ => false end.
+Definition refusal_match (e e' : errc) : bool := Bool.eqb (is_panic e) (is_panic e').
+
 Definition priv_match (p : pres) (pubk : pubkey) (i : ipriv) : bool :=
   match p, i with
   | POk k, IPOk => eqb_of pubkey_eq_dec (pub_of_priv k) pubk
@@ -81,7 +90,7 @@ Fixpoint all2 {A B} (f : A -> B -> bool) (l : list A) (l' : list B) : bool :=
 Definition out_match (m : out) (i : iout) : bool :=
   match m, i with
   | OutOk, IOk => true
-  | OutErr e, IErr e' => eqb_of errc_eq_dec e e'
+  | OutErr e, IErr e' => refusal_match e e'
   | OutAddrs l, IAddrs l' => all2 rinfo_match l l'
   | OutProps a b, IProps a' b' => (a =? a') && (b =? b')
   | OutAcct a, IAcct a' => a =? a'
